@@ -264,6 +264,9 @@ class Engine:
                 t = p.heap.load(b.term, dhas_field(b.kind[4:-1]))[a.term]; return vbool(t if op is ast.In else Not(t))
             if op in (ast.In, ast.NotIn) and b.kind.startswith('dict['):
                 K, Vk, keys, has, mp, n = self.dparts(b, p); t = has[a.term]; return vbool(t if op is ast.In else Not(t))
+            if op in (ast.In, ast.NotIn) and b.kind.startswith('list[') and hasattr(self.spec, 'pure_member'):
+                t = self.spec.pure_member(self, p, b, a.term)          # membership as a ghost predicate axiomatised by the sidecar (no side effects)
+                if t is not None: return vbool(t if op is ast.In else Not(t))
             if op in (ast.In, ast.NotIn):
                 if not b.kind.startswith('list['): raise Unsupported('in on ' + b.kind)
                 t = self.contains(b, a.term, p); return vbool(t if op is ast.In else Not(t))
@@ -320,6 +323,26 @@ class Engine:
         if isinstance(e, ast.ListComp):
             # [x for x in src if cond(x)]  (single generator over an int list, element = the loop variable): a fresh list characterised by
             # ghost witnesses in both directions (every result element comes from a source element satisfying cond, and vice versa)
+            g0 = e.generators[0] if len(e.generators) == 1 else None
+            if g0 is not None and isinstance(g0.iter, ast.Call) and self.dotted(g0.iter.func) == 'enumerate' and isinstance(g0.target, ast.Tuple) and len(g0.target.elts) == 2 \
+               and all(isinstance(t_, ast.Name) for t_ in g0.target.elts) and isinstance(e.elt, ast.Name) and e.elt.id == g0.target.elts[0].id and len(g0.ifs) <= 1:
+                # [i for (i, x) in enumerate(xs) if cond(i, x)]: the increasing list of the positions that satisfy cond (cond must be pure)
+                src = self.ev(g0.iter.args[0], p)
+                if not src.kind.startswith('list['): raise Unsupported('comprehension over enumerate of ' + src.kind)
+                n = self.llen(src, p); it = self.litems(src, p); ek = elem_kind(src.kind); iv, xv = g0.target.elts[0].id, g0.target.elts[1].id; snap = p.fork()
+                def cond(t):
+                    if not g0.ifs: return z3.BoolVal(True)
+                    q = snap.fork(); q.env[iv] = vint(t); q.env[xv] = self.mk(ek, it[t]); n_pc = len(q.pc)
+                    self.mute += 1
+                    try: c_ = self.truth(self.ev(g0.ifs[0], q), q)
+                    finally: self.mute -= 1
+                    if len(q.pc) != n_pc: raise Unsupported('impure condition in a comprehension')
+                    return c_
+                r = p.heap.new(p, 'comp'); arr = fresh('comp', z3.ArraySort(I, I)); m = fresh('comp_len', I); v = z3.Function(f'comp_dst!{next(_n)}', I, I)
+                p.heap.store(r, '$items:int', arr); p.heap.store(r, '$len', m); p.pc += [0 <= m, m <= n]
+                p.facts.append(Schematic(1, lambda k: Implies(And(0 <= k, k < m), And(0 <= arr[k], arr[k] < n, cond(arr[k]), Implies(k + 1 < m, arr[k] < arr[k + 1]))), 'comp-sound-increasing'))
+                p.facts.append(Schematic(1, lambda j: Implies(And(0 <= j, j < n, cond(j)), And(0 <= v(j), v(j) < m, arr[v(j)] == j)), 'comp-complete'))
+                return V('list[int]', r)
             if len(e.generators) != 1 or not isinstance(e.elt, ast.Name) or not isinstance(e.generators[0].target, ast.Name) \
                or e.elt.id != e.generators[0].target.id or len(e.generators[0].ifs) > 1: raise Unsupported('list comprehension form')
             g = e.generators[0]; src = self.ev(g.iter, p)
@@ -495,6 +518,13 @@ class Engine:
     def stmt(self, s, p):
         if isinstance(s, ast.Expr) and isinstance(s.value, ast.Constant): return [Outcome('next', p)]       # docstring dropped
         if isinstance(s, ast.Pass): return [Outcome('next', p)]
+        if isinstance(s, ast.Expr) and isinstance(s.value, ast.Yield):
+            # generator function: the yielded values are appended to the ghost result lists p.env['$yield<k>'] (created by the sidecar's bind)
+            val = self.ev(s.value.value, p); parts = val.kw['elts'] if val.kind == 'tuple' else [val]
+            for k_, v_ in enumerate(parts):
+                if f'$yield{k_}' not in p.env: raise Unsupported('yield without ghost result lists')
+                self.lappend(p.env[f'$yield{k_}'], v_, p, s.lineno)
+            return [Outcome('next', p)]
         if isinstance(s, ast.Expr):
             r = self.ev(s.value, p)
             return r if isinstance(r, list) else [Outcome('next', p)]
@@ -682,11 +712,11 @@ class Engine:
         wf = set(REC); locs = {k_: list(v_) for k_, v_ in REC_LOC.items()}
         REC.clear(); REC.update(saved_rec | wf); REC_LOC.clear(); REC_LOC.update(saved_loc)
         for k_, v_ in locs.items(): REC_LOC.setdefault(k_, []).extend(v_)
-        if '$alloc' in wf:
+        allocates = '$alloc' in wf
+        if allocates:
             wf.discard('$alloc')
             if not getattr(self.spec, 'loops_may_allocate', True): raise Unsupported(f'allocation inside loop {k}')
-            # the allocation map is left unchanged across the loop: objects allocated inside are then merely not known to be distinct
-            # from later allocations (fewer hypotheses: sound)
+            # the allocation map becomes loop state: an arbitrary superset of the map at loop entry (invariants may mention p.heap.alloc)
         entry_arrays = {p.heap.arr(f).get_id() for f in wf}
         def invariant_ref(r):
             """the object written is the same in every iteration: its term mentions no per-iteration symbol, no heap update, and reads
@@ -716,9 +746,13 @@ class Engine:
                 uniq = {}
                 for r in rs: uniq[r.get_id()] = r
                 precise[f] = list(uniq.values())
+        entry_alloc = p.heap.alloc
         def havoc(q, tag):
             q.heap.havoc([f for f in wf if f not in precise], f'L{k}{tag}')
             for f, refs in precise.items(): q.heap.havoc_at(f, refs, f'L{k}{tag}')
+            if allocates:
+                na = fresh(f'alloc_L{k}{tag}', z3.ArraySort(Ref, Bo)); a_, b_ = z3.Bools('a b')
+                q.pc.append(z3.Map(z3.Implies(a_, b_).decl(), entry_alloc, na) == z3.K(Ref, z3.BoolVal(True))); q.heap.alloc = na
             for nme in wn:
                 if nme in q.env and q.env[nme].kind in ('int', 'bool', 'str', 'ref') or (nme in q.env and q.env[nme].kind.startswith('list[')):
                     q.env[nme] = V(q.env[nme].kind, fresh(f'{nme}_L{k}{tag}', sort_of(q.env[nme].kind)))
